@@ -63,6 +63,11 @@ def make(kind, kwargs, hidden=None):
         return enc(kwargs)
     if t == "float":
         return float(enc(kwargs))
+    if t == "intfloat":
+        # whole numbers (Python ints) for even 'version', numbers with a fractional part for odd ones: a quantity whose
+        # first results happen to be integers and later ones are not
+        v = enc(kwargs) % 1000003
+        return v if int(kwargs.get("version", 0)) % 2 == 0 else v + 0.5
     if t == "str":
         return "v%012x" % enc(kwargs)
     if t == "bool":
@@ -117,6 +122,19 @@ def make(kind, kwargs, hidden=None):
         if t == "dataarraync":
             return xr.DataArray(y, dims=("t",), name="y")
         return xr.Dataset({"x": x, "y": (("t",), y)})
+    if t in ("datasetvc", "dataarrayvc"):
+        # labelled data whose own coordinate along 't' DEPENDS on the arguments (same length in every run, shifted
+        # labels): the sweep's dataset spans the union of the labels, each run's numbers under its own labels
+        import numpy as np
+        import xarray as xr
+        n = int(k[1]) if len(k) > 1 else 3
+        off = enc(kwargs, "off") % 3
+        tco = [10.0 * (i + off) for i in range(n)]
+        x = float(enc(kwargs, "x"))
+        y = np.array([float(enc(kwargs, "y", i)) for i in range(n)])
+        if t == "dataarrayvc":
+            return xr.DataArray(y, dims=("t",), coords={"t": tco}, name="y")
+        return xr.Dataset({"x": x, "y": (("t",), y)}, coords={"t": tco})
     if t in ("dict", "dataset", "dataarray"):
         # x: scalar, y: 1-d over internal dim 't' of length n (coords 0..n-1 scaled by 10)
         import numpy as np
